@@ -30,7 +30,7 @@ pub fn def() -> PropDef {
     PropDef {
         id: "C10",
         level: "fault_enumeration",
-        rule: "(A) the real acceptor (BobState::run over an in-memory duplex stream, backed by a real store actor) against a scripted initiator that owns a real replica and at every step chooses from {correct next frame, replay previous frame, Init again, Sync now, Abort(3 reasons), garbage frame with valid length, oversized length prefix, cut inside the next correct frame, close}: every script of <= d steps x accept callback {Allow, Reject(NotFound|AlreadySyncing|InternalServerError)}; (B) the real initiator (run_alice) against a scripted acceptor with the mirrored menu; (C) real initiator against real acceptor through a frame relay that injects one local fault {close the document, disable sync, shut the store actor down} on either side before its k-th incoming frame (and before the first outgoing one), for every k; oracle: both ends return Ok or Err within the deadline, no panic, BobState::into_outcome() callable after every outcome, a declined request leaves the acceptor's store unchanged, counters mirror when both ends return Ok; non-trivial = scenarios with at least one deviation from the correct protocol or one injected fault",
+        rule: "(A) the real acceptor (BobState::run over an in-memory duplex stream, backed by a real store actor) against a scripted initiator that owns a real replica and at every step chooses from {correct next frame, replay previous frame, Init again, Sync now, Abort(3 reasons), garbage frame with valid length, oversized length prefix, cut inside the next correct frame, close}: every script of <= d steps x accept callback {Allow, Reject(NotFound|AlreadySyncing|InternalServerError)}; (B) the real initiator (run_alice) against a scripted acceptor with the mirrored menu; (C) real initiator against real acceptor through a frame relay that injects one local fault {close the document, disable sync, shut the store actor down} on either side before its k-th incoming frame (and before the first outgoing one), for every k; oracle: both ends return Ok or Err within the deadline, no panic, BobState::into_outcome() callable after every outcome and the document of an accepted session still known (namespace()) so that its end can be reported, a declined request leaves the acceptor's store unchanged, counters mirror when both ends return Ok; non-trivial = scenarios with at least one deviation from the correct protocol or one injected fault",
         assumptions: &[
             "deadlines are hang detectors only: a scenario that exceeds 5 s is re-run once with 50 s and must hang again to count",
             "the transport is an in-memory duplex stream; QUIC stream semantics (finish/stopped) are outside",
@@ -240,6 +240,9 @@ struct Observed {
     panic: Option<String>,
     store_changed_on_reject: bool,
     counters_mirror: Option<bool>,
+    /// the accept callback answered Allow, but afterwards the acceptor cannot name the document
+    /// of the session (BobState::namespace() / AcceptError::namespace() is None)
+    accepted_session_without_namespace: bool,
 }
 
 const DEADLINE: Duration = Duration::from_secs(5);
@@ -255,8 +258,11 @@ async fn scenario_bob(script: &[Choice], accept: Accept, variant: u8, deadline: 
     let h2 = handle.clone();
     let bob = tokio::task::spawn_local(async move {
         let mut state = BobState::new(peer_key(1));
+        let asked = std::rc::Rc::new(std::cell::Cell::new(false));
+        let asked2 = asked.clone();
         let res = state
             .run(b_w, b_r, h2, move |_ns, _peer| {
+                asked2.set(true);
                 let o = accept.outcome();
                 async move { o }
             })
@@ -265,9 +271,13 @@ async fn scenario_bob(script: &[Choice], accept: Accept, variant: u8, deadline: 
             Ok(_) => "Ok".to_string(),
             Err(e) => format!("Err({})", short(&format!("{e:?}"))),
         };
+        let allowed = asked.get() && accept == Accept::Allow;
+        let lost_ns = allowed
+            && (state.namespace().is_none()
+                || res.as_ref().err().map(|e| e.namespace().is_none()).unwrap_or(false));
         // into_outcome must be callable after every outcome
         let out = std::panic::catch_unwind(std::panic::AssertUnwindSafe(|| state.into_outcome()));
-        (res_s, out.map_err(|p| crate::util::panic_message(&p)))
+        (res_s, out.map_err(|p| crate::util::panic_message(&p)), lost_ns)
     });
     let mut alice = Scripted::new(&side_entries(0, variant), true);
     let script = script.to_vec();
@@ -335,8 +345,9 @@ async fn scenario_bob(script: &[Choice], accept: Accept, variant: u8, deadline: 
         Ok((bob_res, alice)) => {
             match bob_res {
                 Err(e) => obs.panic = Some(format!("acceptor task: {e}")),
-                Ok((res, out)) => {
+                Ok((res, out, lost_ns)) => {
                     obs.sut_result = res.clone();
+                    obs.accepted_session_without_namespace = lost_ns;
                     match out {
                         Err(p) => {
                             obs.into_outcome = "panic".into();
@@ -566,13 +577,20 @@ async fn scenario_fault(
     let hb2 = hb.clone();
     let bob = tokio::task::spawn_local(async move {
         let mut state = BobState::new(peer_key(1));
+        let asked = std::rc::Rc::new(std::cell::Cell::new(false));
+        let asked2 = asked.clone();
         let res = state
-            .run(b_w, b_r, hb2, |_ns, _peer| async { AcceptOutcome::Allow })
-            .await
-            .map(|_| ())
-            .map_err(|e| short(&format!("{e:?}")));
+            .run(b_w, b_r, hb2, move |_ns, _peer| {
+                asked2.set(true);
+                async { AcceptOutcome::Allow }
+            })
+            .await;
+        let lost_ns = asked.get()
+            && (state.namespace().is_none()
+                || res.as_ref().err().map(|e| e.namespace().is_none()).unwrap_or(false));
+        let res = res.map(|_| ()).map_err(|e| short(&format!("{e:?}")));
         let out = std::panic::catch_unwind(std::panic::AssertUnwindSafe(|| state.into_outcome()));
-        (res, out.map_err(|p| crate::util::panic_message(&p)))
+        (res, out.map_err(|p| crate::util::panic_message(&p)), lost_ns)
     });
     let joined =
         tokio::time::timeout(deadline, async { tokio::join!(alice, bob, r1, r2) }).await;
@@ -582,7 +600,8 @@ async fn scenario_fault(
         Ok((a, b, n1, n2)) => {
             frames = (n1.unwrap_or(0), n2.unwrap_or(0));
             match (a, b) {
-                (Ok(ar), Ok((br, out))) => {
+                (Ok(ar), Ok((br, out, lost_ns))) => {
+                    obs.accepted_session_without_namespace = lost_ns;
                     obs.sut_result = format!(
                         "alice={} bob={}",
                         ar.as_ref().map(|_| "Ok".to_string()).unwrap_or_else(|e| format!("Err({e})")),
@@ -641,6 +660,9 @@ fn judge(obs: &Observed, what: &str) -> Vec<(&'static str, Value, String)> {
     if let Some(p) = &obs.panic {
         let which = if p.starts_with("into_outcome") { "into_outcome_callable" } else { "no_panic" };
         bad.push((which, json!({"after_result": short(&obs.sut_result).split('(').next().unwrap_or("").to_string()}), format!("{what}: {p} (result {})", obs.sut_result)));
+    }
+    if obs.accepted_session_without_namespace {
+        bad.push(("acceptor_can_report_outcome_of_accepted_session", json!({}), format!("{what}: the request was accepted, but afterwards the acceptor cannot name the document of the session (result {}), so the session can never be reported as finished", obs.sut_result)));
     }
     if obs.store_changed_on_reject {
         bad.push(("declined_request_changes_nothing", json!({}), format!("{what}: the acceptor's store changed although the request was declined")));
